@@ -110,7 +110,11 @@ def run(rep, model, tier, seed):
         for w in itertools.product(ALPHABET, repeat=n):
             if any(o[0] in ("listen=", "open_tx_pipe") for o in w):
                 # quick tier: at full depth keep sequences ending in the calls the property speaks about
-                if tier == "quick" and n == depth and w[-1][0] not in ("listen=", "open_tx_pipe"):
+                if n == depth and w[-1][0] not in ("listen=", "open_tx_pipe"):
+                    continue
+                if tier != "quick" and n == depth and (len(cases) % 3):
+                    # thorough, depth 5: every third of the sequences ending in a call the property speaks about
+                    cases.append(None)
                     continue
                 cases.append(list(w))
     corpus = [
@@ -120,9 +124,11 @@ def run(rep, model, tier, seed):
         [("open_rx_pipe", 0, S3), ("listen=", False), ("open_tx_pipe", C), ("listen=", True)],  # F10
         [("open_rx_pipe", 0, A), ("open_rx_pipe", 1, B), ("close_rx_pipe", 0), ("listen=", False), ("listen=", True)],
     ]
+    cases = [c for c in cases if c is not None]
     R.check_cases(rep, model, corpus, "corpus", [True], [0], make_rf24, Checker, nontrivial)
     R.check_cases(rep, model, cases, "exhaustive", [True], [0], make_rf24, Checker, nontrivial)
-    rep.exhaustive.append("%d sequences up to length %d over the 13-call alphabet" % (len(cases), depth))
+    rep.exhaustive.append("all sequences up to length %d over the 13-call alphabet; at length %d those ending in listen=/open_tx_pipe%s (%d in all)" % (
+        depth - 1, depth, "" if tier == "quick" else ", every third", len(cases)))
     extra = ALPHABET + [("open_rx_pipe", 2, b"3Node"), ("open_rx_pipe", 5, b"6"), ("close_rx_pipe", 1), ("close_rx_pipe", 2),
                         ("set_auto_ack", False, 0), ("set_auto_ack", True, 0), ("auto_ack=", 0x3E), ("auto_ack=", [0, 1]),
                         ("open_rx_pipe", 0, b"\xe7" * 5), ("open_tx_pipe", b"\xe7" * 5), ("open_rx_pipe", 0, bytearray(b"1Nodx")),
